@@ -63,7 +63,9 @@ class HastelloyN(Material):
         self.setMassFrac("W", 0.005)  # max.
         self.setMassFrac("AL", 0.0025)  # max.
         self.setMassFrac("TI", 0.0025)  # max.
-        self.setMassFrac("NI", 1.0 - sum(self.massFrac.values()))  # balance
+        # the balance of what the other elements leave (not counting a balance from an earlier call)
+        others = sum(frac for nuc, frac in self.massFrac.items() if nuc != "NI")
+        self.setMassFrac("NI", 1.0 - others)  # balance
 
         self.refDens = 8.86
 
